@@ -248,7 +248,7 @@ def _guard(what, fn, sig):
         import traceback
         tb = traceback.extract_tb(e.__traceback__)
         where = next((f"{os.path.basename(f.filename)}:{f.name}" for f in reversed(tb)
-                      if "/repo/spatialpandas/" in f.filename), "?")
+                      if seams.SP_DIR in f.filename), "?")
         sig["where"] = where
         inner = tb[-1].filename if tb else ""
         sig["raised_in_dask_or_pandas"] = ("/site-packages/pandas/" in inner
